@@ -14,6 +14,7 @@ import (
 	"github.com/lindb/common/pkg/fasttime"
 	jump "github.com/lithammer/go-jump-consistent-hash"
 
+	"github.com/lindb/lindb/constants"
 	"github.com/lindb/lindb/pkg/timeutil"
 	"github.com/lindb/lindb/replica"
 	"github.com/lindb/lindb/series/metric"
@@ -1536,6 +1537,74 @@ func flatAlone(cf *cfg, m *lmetric) (*obs, error) {
 	return o, nil
 }
 
+// flatDecodeRequest is parseFlatMetric with the per-row errors kept: one decoder for the request (fresh =
+// the pool is emptied first so that a brand-new decoder comes out), every row through
+// batch.TryAppend(decoder.DecodeTo), the decoder released into the pool afterwards.
+func flatDecodeRequest(cf *cfg, part []*lmetric, fresh bool) (errs []error, b *metric.BrokerBatchRows, t0, t1 int64) {
+	var buf bytes.Buffer
+	for _, m := range part {
+		buf.Write(m.toFlatRaw())
+	}
+	if fresh {
+		for k := 0; k < 4; k++ {
+			metric.NewBrokerRowFlatDecoder(bytes.NewReader(nil), nil, nil, cf.lim.real())
+		}
+	}
+	dec, release := metric.NewBrokerRowFlatDecoder(&buf, []byte(heapCopy(cf.reqNs)), cf.realEnriched(), cf.lim.real())
+	defer release(dec)
+	b = metric.NewBrokerBatchRows()
+	t0 = fasttime.UnixMilliseconds()
+	for dec.HasNext() {
+		errs = append(errs, b.TryAppend(dec.DecodeTo))
+	}
+	t1 = fasttime.UnixMilliseconds()
+	return
+}
+
+// flatErrKind names the `return err` site of rebuild / RowBuilder an error comes from.
+func flatErrKind(err error) string {
+	switch err {
+	case constants.ErrTooManyTagKeys:
+		return "too-many-tags"
+	case constants.ErrTagKeyTooLong:
+		return "tag-key-too-long"
+	case constants.ErrTagValueTooLong:
+		return "tag-value-too-long"
+	case constants.ErrTooManyFields:
+		return "too-many-fields"
+	case constants.ErrFieldNameTooLong:
+		return "field-name-too-long"
+	case constants.ErrMetricNameTooLong:
+		return "name-too-long"
+	case constants.ErrNamespaceTooLong:
+		return "ns-too-long"
+	}
+	s := err.Error()
+	for _, p := range [][2]string{
+		{"tag[", "empty-tag"},
+		{"flat field type is unspecified", "field-type-unspecified"},
+		{"fieldValue is Inf", "field-inf"},
+		{"fieldValue is NaN", "field-nan"},
+		{"fieldName is empty", "empty-field-name"},
+		{"values's length", "buckets-len-mismatch"},
+		{"compound buckets", "too-few-buckets"},
+		{"compound explicit bound is not increasing", "bounds-not-increasing"},
+		{"compound last explicit bound", "last-bound-not-inf"},
+		{"compound first explicit bound", "first-bound-negative"},
+		{"compound value contains Inf", "bucket-inf"},
+		{"compound value less than zero", "bucket-negative"},
+		{"compound value contains NaN", "bucket-nan"},
+		{"min:", "mmsc-negative"},
+		{"metric-name is empty", "empty-name"},
+		{"simple field and compound field are both empty", "no-field"},
+	} {
+		if strings.HasPrefix(s, p[0]) {
+			return p[1]
+		}
+	}
+	return "other:" + s
+}
+
 // caseFlatStream: several raw flat rows — valid ones, invalid ones, valid and invalid histograms —
 // in one or two requests through flat.ParseReader (one decoder per request, the same pooled decoder
 // for the second request). C16: every valid row is stored exactly as sent and every invalid one is
@@ -1595,6 +1664,42 @@ func caseFlatStream(c *core.Ctx, r *rand.Rand) {
 	cut := n
 	if r.Intn(2) == 0 {
 		cut = 1 + r.Intn(n-1)
+	}
+	// the same requests row by row through the real decoder — one decoder per request, brand-new or whatever
+	// the pool hands back — so that the model of rebuild / RowBuilder sees every row's verdict (error SITE
+	// included) and the stored row
+	for pi, part := range [][]*lmetric{ms[:cut], ms[cut:]} {
+		if len(part) == 0 {
+			continue
+		}
+		kind := "pooled"
+		if pi == 0 && r.Intn(2) == 0 {
+			kind = "fresh"
+		}
+		errs, fb, t0, t1 := flatDecodeRequest(cf, part, kind == "fresh")
+		c.Op("fnew "+kind, "ok")
+		rows := fb.Rows()
+		k := 0
+		for i, m := range part {
+			switch {
+			case i >= len(errs):
+				c.Op("fdec "+m.enc(), "not-read")
+			case errs[i] != nil:
+				c.Op("fdec "+m.enc(), "ferr "+flatErrKind(errs[i]))
+				c.Branch("flat-decode/" + flatErrKind(errs[i]))
+			case k >= len(rows):
+				c.Op("fdec "+m.enc(), "missing-row")
+			default:
+				o, _ := observe(&rows[k])
+				k++
+				if o == nil {
+					c.Op("fdec "+m.enc(), "unreadable")
+				} else {
+					c.Op("fdec "+m.enc(), o.line(m.ts, t0, t1))
+					c.Branch("flat-decode/ok")
+				}
+			}
+		}
 	}
 	stored := map[string][]*obs{}
 	var order []string
